@@ -304,8 +304,11 @@ impl Context {
             let mut parent = task.parent();
             while let Some(p) = parent {
                 if p.is_kind(NodeKind::Step) || p.is_kind(NodeKind::Act) {
-                    p.set_state(TaskState::Backed);
-                    self.emit_task(&p)?;
+                    // a parent that has already ended keeps its final state
+                    if !p.state().is_completed() {
+                        p.set_state(TaskState::Backed);
+                        self.emit_task(&p)?;
+                    }
                     break;
                 }
                 parent = p.parent();
